@@ -62,6 +62,10 @@ pub enum ModelEvaluatorError {
   EmptyFunctionBody,
   #[error("empty value expression")]
   EmptyValueExpression,
+  #[error("decision table has no output clause")]
+  DecisionTableWithoutOutput,
+  #[error("decision table rule has {0} {1} entries, expected {2}")]
+  DecisionTableRuleSizeMismatch(usize, String, usize),
   #[error("read lock failed with reason '{0}'")]
   ReadLockFailed(String),
   #[error("write lock failed with reason '{0}'")]
@@ -112,6 +116,14 @@ pub fn err_unsupported_feel_type(feel_type: FeelType) -> DmntkError {
 
 pub fn err_empty_feel_type() -> DmntkError {
   ModelEvaluatorError::EmptyFeelType.into()
+}
+
+pub fn err_decision_table_without_output() -> DmntkError {
+  ModelEvaluatorError::DecisionTableWithoutOutput.into()
+}
+
+pub fn err_decision_table_rule_size_mismatch(actual: usize, kind: &str, expected: usize) -> DmntkError {
+  ModelEvaluatorError::DecisionTableRuleSizeMismatch(actual, kind.to_string(), expected).into()
 }
 
 pub fn err_empty_reference() -> DmntkError {
